@@ -192,6 +192,12 @@ def laid_out(X, layout):
 
 
 def run(ctx: C.Ctx):
+    from .. import shapes_static, translate_bases
+    shapes_static.run_with_translation(ctx, translate_bases, "Bases", "basis-glue", lambda: _run(ctx),
+                                       "regenerated from pysensors/basis: what fit stores, matrix_representation = first k columns, how each inverse is formed")
+
+
+def _run(ctx: C.Ctx):
     rng = ctx.rng
     for idx in range(ctx.scale(150, 2500)):
         kind = rng.choice(["identity", "svd", "rp", "rp", "custom"])
